@@ -86,6 +86,18 @@ func fmtBook(bk engine.Book) string {
 		parts = append(parts, strings.ReplaceAll(k, " ", "_")+"="+fmtReplies(ms))
 	}
 	sort.Strings(parts)
+	// a client may do what it likes with a list it was handed (here: append its first reply once more, as a book merger or a
+	// "prefer the main line" tweak would): every other position must still offer what it offered
+	for k := range entries {
+		if got, err := bk.Find(context.Background(), k+" 0 1"); err == nil && len(got) > 0 {
+			_ = append(got, got[0])
+		}
+	}
+	for k, ms := range bookEntries(bk) {
+		if fmtReplies(ms) != fmtReplies(entries[k]) {
+			return "MISMATCH FIND-ALIASED " + strings.ReplaceAll(k, " ", "_") + " offers " + fmtReplies(ms) + " after a client appended to the list of another position; it offered " + fmtReplies(entries[k])
+		}
+	}
 	return strings.Join(append([]string{fmt.Sprintf("n=%d", len(entries))}, parts...), " ")
 }
 
